@@ -10,28 +10,28 @@ Record world := World {
 Definition nonrev : cres := CRes RNonRevokable [SRes RNonRevokable 0] MUnknown.
 
 (* the per-certificate switch of ValidateContext; returns the result and the contact log
-   (OCSP URLs contacted, then CRL URLs fetched, in order) *)
-Definition check_cert (w : world) (st : Z) (c : cert) : cres * (list Z * list Z) :=
+   (OCSP URLs contacted, then CRL URLs fetched, in the order of the exchanges) *)
+Definition check_cert (w : world) (st : Z) (c : cert) : cres * list Z :=
   match c_ocsp c with
   | _ :: _ =>
       let (o, olog) := ocsp_check (w_ocsp w) (w_now w) st (c_ocsp c) in
       match cr_result o, c_crl c with
       | RUnknown, _ :: _ =>
           let (r, clog) := crl_check (w_fetch w) (w_now w) st (c_serial c) (c_freshest c) (c_crl c) in
-          (CRes (cr_result r) (cr_servers o ++ cr_servers r) MFallback, (olog, clog))
-      | _, _ => (o, (olog, []))
+          (CRes (cr_result r) (cr_servers o ++ cr_servers r) MFallback, olog ++ clog)
+      | _, _ => (o, olog)
       end
   | [] =>
       match c_crl c with
-      | _ :: _ => let (r, clog) := crl_check (w_fetch w) (w_now w) st (c_serial c) (c_freshest c) (c_crl c) in (r, ([], clog))
-      | [] => (nonrev, ([], []))
+      | _ :: _ => let (r, clog) := crl_check (w_fetch w) (w_now w) st (c_serial c) (c_freshest c) (c_crl c) in (r, clog)
+      | [] => (nonrev, [])
       end
   end.
 
-Fixpoint check_positions (w : world) (st : Z) (l : list cert) : list (cres * (list Z * list Z)) :=
+Fixpoint check_positions (w : world) (st : Z) (l : list cert) : list (cres * list Z) :=
   match l with
   | [] => []
-  | [_] => [(nonrev, ([], []))]            (* the root *)
+  | [_] => [(nonrev, [])]            (* the root *)
   | c :: r => check_cert w st c :: check_positions w st r
   end.
 
@@ -40,16 +40,16 @@ Variable sigfrom : cert -> cert -> bool.
 Variable selfsig : cert -> bool.
 
 (* None = InvalidChainError and no results *)
-Definition validate_ctx (purpose : Z) (w : world) (st : Z) (chain : list cert) : option (list (cres * (list Z * list Z))) :=
+Definition validate_ctx (purpose : Z) (w : world) (st : Z) (chain : list cert) : option (list (cres * list Z)) :=
   if validate_chain sigfrom selfsig purpose chain then Some (check_positions w st chain) else None.
 
 (* revocation/ocsp.CheckStatus: OCSP only, every non-root certificate *)
-Fixpoint ocsp_positions (w : world) (st : Z) (l : list cert) : list (cres * (list Z * list Z)) :=
+Fixpoint ocsp_positions (w : world) (st : Z) (l : list cert) : list (cres * list Z) :=
   match l with
   | [] => []
-  | [_] => [(CRes RNonRevokable [SRes RNonRevokable 0] MUnknown, ([], []))]
-  | c :: r => (let (o, olog) := ocsp_check (w_ocsp w) (w_now w) st (c_ocsp c) in (o, (olog, []))) :: ocsp_positions w st r
+  | [_] => [(CRes RNonRevokable [SRes RNonRevokable 0] MUnknown, [])]
+  | c :: r => ocsp_check (w_ocsp w) (w_now w) st (c_ocsp c) :: ocsp_positions w st r
   end.
-Definition ocsp_check_status (purpose : Z) (w : world) (st : Z) (chain : list cert) : option (list (cres * (list Z * list Z))) :=
+Definition ocsp_check_status (purpose : Z) (w : world) (st : Z) (chain : list cert) : option (list (cres * list Z)) :=
   if validate_chain sigfrom selfsig purpose chain then Some (ocsp_positions w st chain) else None.
 End Validate.
